@@ -53,6 +53,8 @@ fn cfg(tier: Tier, index: u64) -> HistCfg {
         special_keys: false,
         default_table: false,
         big_table: None,
+        empty_mid: false,
+        empty_end: false,
     };
     // every 40th case: hundreds of keys in a table of 1..4 buckets (chains beyond 256 entries)
     if index % 40 == 13 && !huge {
